@@ -40,12 +40,18 @@ Model/RunC04.vos Model/RunC04.vok Model/RunC04.required_vos: Model/RunC04.v Base
 Model/Run.vo Model/Run.glob Model/Run.v.beautified Model/Run.required_vo: Model/Run.v Base/Bytes.vo Model/Resp.vo Model/RunBase.vo Model/RunSrv.vo Model/RunC04.vo
 Model/Run.vio: Model/Run.v Base/Bytes.vio Model/Resp.vio Model/RunBase.vio Model/RunSrv.vio Model/RunC04.vio
 Model/Run.vos Model/Run.vok Model/Run.required_vos: Model/Run.v Base/Bytes.vos Model/Resp.vos Model/RunBase.vos Model/RunSrv.vos Model/RunC04.vos
+Spec/ZSet.vo Spec/ZSet.glob Spec/ZSet.v.beautified Spec/ZSet.required_vo: Spec/ZSet.v Base/Bytes.vo Model/SkipList.vo
+Spec/ZSet.vio: Spec/ZSet.v Base/Bytes.vio Model/SkipList.vio
+Spec/ZSet.vos Spec/ZSet.vok Spec/ZSet.required_vos: Spec/ZSet.v Base/Bytes.vos Model/SkipList.vos
 Proofs/BytesFacts.vo Proofs/BytesFacts.glob Proofs/BytesFacts.v.beautified Proofs/BytesFacts.required_vo: Proofs/BytesFacts.v Base/Bytes.vo
 Proofs/BytesFacts.vio: Proofs/BytesFacts.v Base/Bytes.vio
 Proofs/BytesFacts.vos Proofs/BytesFacts.vok Proofs/BytesFacts.required_vos: Proofs/BytesFacts.v Base/Bytes.vos
 Proofs/RespFacts.vo Proofs/RespFacts.glob Proofs/RespFacts.v.beautified Proofs/RespFacts.required_vo: Proofs/RespFacts.v Base/Bytes.vo Model/Resp.vo Proofs/BytesFacts.vo
 Proofs/RespFacts.vio: Proofs/RespFacts.v Base/Bytes.vio Model/Resp.vio Proofs/BytesFacts.vio
 Proofs/RespFacts.vos Proofs/RespFacts.vok Proofs/RespFacts.required_vos: Proofs/RespFacts.v Base/Bytes.vos Model/Resp.vos Proofs/BytesFacts.vos
+Proofs/SkipListFacts.vo Proofs/SkipListFacts.glob Proofs/SkipListFacts.v.beautified Proofs/SkipListFacts.required_vo: Proofs/SkipListFacts.v Base/Bytes.vo Model/Resp.vo Model/Types.vo Model/SkipList.vo Spec/ZSet.vo Proofs/BytesFacts.vo
+Proofs/SkipListFacts.vio: Proofs/SkipListFacts.v Base/Bytes.vio Model/Resp.vio Model/Types.vio Model/SkipList.vio Spec/ZSet.vio Proofs/BytesFacts.vio
+Proofs/SkipListFacts.vos Proofs/SkipListFacts.vok Proofs/SkipListFacts.required_vos: Proofs/SkipListFacts.v Base/Bytes.vos Model/Resp.vos Model/Types.vos Model/SkipList.vos Spec/ZSet.vos Proofs/BytesFacts.vos
 Props/C20.vo Props/C20.glob Props/C20.v.beautified Props/C20.required_vo: Props/C20.v Base/Bytes.vo Model/Resp.vo Proofs/BytesFacts.vo Proofs/RespFacts.vo
 Props/C20.vio: Props/C20.v Base/Bytes.vio Model/Resp.vio Proofs/BytesFacts.vio Proofs/RespFacts.vio
 Props/C20.vos Props/C20.vok Props/C20.required_vos: Props/C20.v Base/Bytes.vos Model/Resp.vos Proofs/BytesFacts.vos Proofs/RespFacts.vos
